@@ -8,7 +8,7 @@
    What the reader sees ("expanded form"), exactly: the instruction list [tr_body chs b last] —
    one instruction per entry in order, except that a conditional the writer emitted in its long
    form (chs = true) is seen as TWO instructions: the conditional with the OPPOSITE opcode whose
-   target is the instruction after the pair (own index + 2), then Goto (read from goto_w) whose
+   target is the instruction after the pair (2 + own index), then Goto (read from goto_w) whose
    target is the original target.  goto_w / jsr_w are seen as Goto / Jsr with the same target: duke's
    Instruction has no wide variants, the form is not observable.  Targets, switch arms, exception
    ranges, line numbers / offset targets and local-variable ranges are the indices [T_of chs b last l]
@@ -16,9 +16,9 @@
    such are erased on both sides (C01's [expected] records which instructions carry one).
 
    Hypotheses, all decidable except C02's own unique_labels (NoDup), and why each is there:
-   body_in          the fragment (BridgeDefs.v); "the last entry is not a conditional": the long form
-                    of a conditional in last place jumps to code_length, which duke's reader refuses
-                    (such a body falls off the end of the method: not verifiable code);
+   body_in chs      the fragment (BridgeDefs.v); "the last entry is not a conditional in its long form":
+                    that one jumps to code_length, which duke's reader refuses (such a body falls off
+                    the end of the method: not verifiable code); body_in_simple: no conditional in last place;
    refs_carried     no branch / switch arm names the last label: the writer encodes a jump to
                     code_length, the reader refuses it (Labels::create: pc < code_length);
    tables_carried   same for handler_pc, start_pc of exception / local-variable ranges and single
@@ -41,7 +41,7 @@ Lemma tr_ch_at chs b : ch_at (tr_ch chs b) 0 (chl_from chs b).
 Proof. intros j _. reflexivity. Qed.
 
 Theorem bridge_encode b chs last w :
-  length chs = length b -> body_in b = true ->
+  length chs = length b -> body_in chs b = true ->
   WE.encode chs (WE.labpos chs 0 b last) 0 b = Some w ->
   WE.admissible chs (WE.labpos chs 0 b last) 0 b = true ->
   encode (tr_ch chs b) (tr_body chs b last) = Some w /\
@@ -78,7 +78,7 @@ Proof.
   rewrite app_length, ch_entry_length. pose proof (cnt_pos c e).
   destruct (WE.olabel_is lb l).
   - exists k. split; [reflexivity|lia].
-  - cbn [orb] in Hc. destruct (IH cs (k + cnt c e)%nat last l ltac:(cbn [length] in Hl; lia) Hc) as (j & Hj & Hlt).
+  - cbn [orb] in Hc. destruct (IH cs (cnt c e + k)%nat last l ltac:(cbn [length] in Hl; lia) Hc) as (j & Hj & Hlt).
     exists j. split; [exact Hj|lia].
 Qed.
 
@@ -95,7 +95,7 @@ Proof.
 Qed.
 
 (* the targets of the translated body *)
-Lemma tr_targets T : forall b chs k i t, length chs = length b -> body_in b = true ->
+Lemma tr_targets T : forall b chs k i t, length chs = length b -> body_in chs b = true ->
   In i (tr_from T chs k b) -> In t (targets i) ->
   (exists le l, In le b /\ In l (refs_of (snd le)) /\ t = T l) \/ (t < k + length (tr_from T chs k b))%nat.
 Proof.
@@ -125,12 +125,12 @@ Proof.
       * exists d. cbn [refs_of snd]. auto with datatypes.
       * rewrite map_map in Ht. cbn [snd] in Ht. apply in_map_iff in Ht. destruct Ht as (kp & <- & Hl2).
         exists (snd kp). cbn [refs_of snd]. split; [left; reflexivity|]. split; [|reflexivity]. right. apply in_map. exact Hl2.
-  - destruct (IH cs (k + cnt c e)%nat i t Hl' Hr Hi Ht) as [(le & l & H1 & H2 & H3)|H].
+  - destruct (IH cs (cnt c e + k)%nat i t Hl' Hr Hi Ht) as [(le & l & H1 & H2 & H3)|H].
     + left. exists le, l. auto with datatypes.
     + right. lia.
 Qed.
 
-Lemma bridge_targets_ok chs b last : length chs = length b -> body_in b = true -> refs_carried b = true ->
+Lemma bridge_targets_ok chs b last : length chs = length b -> body_in chs b = true -> refs_carried b = true ->
   targets_ok (tr_body chs b last).
 Proof.
   intros Hl Hin Hrc i t Hi Ht.
@@ -263,7 +263,7 @@ Qed.
 (* READING AN ADMISSIBLE C02-ENCODING WITH C01'S READER *)
 Theorem bridge_read_encoding b chs last w tb rt nl lines :
   length chs = length b ->
-  body_in b = true -> refs_carried b = true -> tables_carried b tb = true ->
+  body_in chs b = true -> refs_carried b = true -> tables_carried b tb = true ->
   WE.encode chs (WE.labpos chs 0 b last) 0 b = Some w ->
   WE.admissible chs (WE.labpos chs 0 b last) 0 b = true ->
   w <> [] -> N.of_nat (length w) <= 65535 ->
@@ -300,7 +300,7 @@ Qed.
 
 Theorem bridge_write_read hasmax b last tb w Wd rt nl lines :
   W3.unique_labels b last ->
-  body_in b = true -> refs_carried b = true -> tables_carried b tb = true ->
+  body_in (W3.chs_run Wd 0%N 0%Z [] b) b = true -> refs_carried b = true -> tables_carried b tb = true ->
   W.write_code hasmax b last tb = Some (W.OK (w, Wd, rt)) ->
   let chs := W3.chs_run Wd 0%N 0%Z [] b in
   read_code (code_in_of_written w rt nl lines)
@@ -323,4 +323,16 @@ Proof.
   apply (bridge_read_encoding b chs last w0 tb r nl lines); try assumption.
   - intros ->. cbn [length] in Hz. lia.
   - lia.
+Qed.
+
+(* the same with the hypothesis that does not mention the outcome: the last entry is no conditional *)
+Corollary bridge_write_read_simple hasmax b last tb w Wd rt nl lines :
+  W3.unique_labels b last ->
+  body_in_simple b = true -> refs_carried b = true -> tables_carried b tb = true ->
+  W.write_code hasmax b last tb = Some (W.OK (w, Wd, rt)) ->
+  let chs := W3.chs_run Wd 0%N 0%Z [] b in
+  read_code (code_in_of_written w rt nl lines)
+  = Ok (expected (tr_body chs b last) (tr_tables (T_of chs b last) tb nl lines)).
+Proof.
+  intros Hu Hin. apply (bridge_write_read hasmax b last tb w Wd rt nl lines Hu). apply body_in_of_simple. exact Hin.
 Qed.
